@@ -27,6 +27,9 @@ func bigAlignment(r *RNG, n, w int) (ref string, names, seqs []string) {
 }
 
 func c12Gen(r *RNG, id string) *Case {
+	if r.Chance(1, 4) { // the exported order-restoring writers under an adversarial arrival order
+		return reordGen(r, id)
+	}
 	kinds := []string{"snps", "snps-agg", "variants", "variants-agg", "variants-gff-shared", "toma", "topa-dir", "topa-stdout", "samvariants", "samvariants-agg",
 		"closest", "closest-n", "list", "topranking", "topranking-push", "topranking-csv"}
 	kind := kinds[r.Intn(len(kinds))]
@@ -64,7 +67,7 @@ func execC12(c *Case) {
 	lay := layout{width: 70}
 	switch kind {
 	case "snps", "snps-agg":
-		ref, names, seqs := bigAlignment(r, r.Range(20, 80), r.Range(10, 60))
+		ref, names, seqs := bigAlignment(r, r.Range(40, 250), r.Range(10, 40))
 		refTxt, aln := renderFasta([]string{"ref"}, []string{ref}, lay), renderFasta(names, seqs, lay)
 		run = func(cfg runCfg) result {
 			return safeRun(60*time.Second, func() (string, error) {
@@ -74,7 +77,7 @@ func execC12(c *Case) {
 			})
 		}
 	case "list":
-		ref, names, seqs := bigAlignment(r, r.Range(20, 80), r.Range(10, 60))
+		ref, names, seqs := bigAlignment(r, r.Range(40, 250), r.Range(10, 40))
 		refTxt, aln := renderFasta([]string{"ref"}, []string{ref}, lay), renderFasta(names, seqs, lay)
 		run = func(cfg runCfg) result {
 			return safeRun(60*time.Second, func() (string, error) {
@@ -102,7 +105,7 @@ func execC12(c *Case) {
 		names := strings.Split(vc.Get("names"), ",")
 		seqs := strings.Split(vc.Get("seqs"), ",")
 		base := len(names)
-		for k := 0; k < 30; k++ {
+		for k := 0; k < 120; k++ {
 			i := r.Intn(base)
 			if names[i] == vc.Get("refname") {
 				continue
@@ -120,7 +123,7 @@ func execC12(c *Case) {
 		_ = txt0
 		// replicate the queries under new names
 		var all []samRec
-		for k := 0; k < 12; k++ {
+		for k := 0; k < 40; k++ {
 			for _, rec := range recs {
 				rr := rec
 				rr.name = fmt.Sprintf("%s_%02d", rec.name, k)
